@@ -162,6 +162,40 @@ func (s *c19Subject) reusedCollection(k int, want string) *evid.Fail {
 			if run("holding later entries of the same names in upper case") {
 				run("holding later entries of the same names in upper case, evaluated again")
 			}
+			// separate instances built from one token list of the caller's (the list this instance reports, blanks and
+			// comments included), one after the other: each evaluates like the instance the list came from
+			list := s.calc.OriginalTokens()
+			for round := 1; round <= 2 && len(list) > 0; round++ {
+				other := calculator.ExpressionCalculatorFromTokens(list)
+				other.SetVariantOperations(s.calc.VariantOperations())
+				v, err := other.EvaluateUsingVariablesAndFunctions(makeVars(bs), fl)
+				if got := "ok: " + resultRepr(v, err); got != want && !(strings.HasPrefix(got, "ok: error") && strings.HasPrefix(want, "ok: error")) {
+					res = evid.F("instances-from-one-token-list-differ", "expression %q: instance #%d built from the token list the parsed instance reports evaluates to %s, the parsed instance to %s", s.c.Text, round, got, want)
+					return
+				}
+			}
+			// collections the calculator fills for the caller (CreateVariables) are the caller's: values set in one of
+			// them show neither in the calculator's own default variables nor in another collection it filled
+			own1, own2 := variables.NewVariableCollection(), variables.NewVariableCollection()
+			s.calc.CreateVariables(own1)
+			s.calc.CreateVariables(own2)
+			snap := func() string {
+				var sb strings.Builder
+				for _, vc := range []variables.IVariableCollection{s.calc.DefaultVariables(), own2} {
+					for _, v := range vc.GetAll() {
+						sb.WriteString(v.Name() + "=" + fromVariant(v.Value()).String() + " ")
+					}
+					sb.WriteString("| ")
+				}
+				return sb.String()
+			}
+			before := snap()
+			for i, v := range own1.GetAll() {
+				v.SetValue(variants.VariantFromInteger(100 + i))
+			}
+			if after := snap(); after != before {
+				res = evid.F("created-collections-share-variables", "expression %q: after values were set in one collection filled by CreateVariables, the default variables and another such collection read %s, before %s", s.c.Text, after, before)
+			}
 			return
 		}
 		// one map object of the caller's on the shared parsed instance: used, its values rotated among the same keys in
@@ -549,11 +583,11 @@ func TestC19_EnumFunctionPurity(t *testing.T) {
 			names = append(names, n)
 		}
 	}
-	rec.Bounds = fmt.Sprintf("%d deterministic functions x all argument lists of length 1..2 over a %d-value pool (length 3 at rotating offsets), variables a, b, c, two collections, order [0 1 0 1 1 0]", len(names), len(pool))
+	rec.Bounds = fmt.Sprintf("%d deterministic functions x all argument lists of length 1..2 over a %d-value pool (length 3 at rotating offsets, lengths 4..8 over ten numbers at rotating offsets), variables a..h, two collections, order [0 1 0 1 1 0]", len(names), len(pool))
 	parallelFor(len(names), func(i int) {
 		name := names[i]
 		run := func(args []val) {
-			vn := []string{"a", "b", "c"}[:len(args)]
+			vn := []string{"a", "b", "c", "d", "e", "f", "g", "h"}[:len(args)]
 			c := c19Case{Kind: "expression", Text: name + "(" + strings.Join(vn, ", ") + ")", Order: []int{0, 1, 0, 1, 1, 0}}
 			var b0, b1 []binding
 			for k, a := range args {
@@ -574,6 +608,18 @@ func TestC19_EnumFunctionPurity(t *testing.T) {
 		}
 		for off := range pool {
 			run([]val{pool[off], pool[(off+3)%len(pool)], pool[(off+7)%len(pool)]})
+		}
+		// longer argument lists (the date and time-span constructors take up to seven, the folds any number): integers
+		// that make a valid call, at rotating positions
+		parts := []val{vInt(2021), vInt(3), vInt(14), vInt(15), vInt(9), vInt(26), vInt(535), vLong(7), vDouble(1.5), vInt(1)}
+		for n := 4; n <= 8; n++ {
+			for off := range parts {
+				args := make([]val, n)
+				for k := range args {
+					args[k] = parts[(off+k)%len(parts)]
+				}
+				run(args)
+			}
 		}
 	})
 }
